@@ -313,6 +313,8 @@ func mcCatalog() *Catalog {
 	// the same bytes as a blob and as a manifest: imx has the bytes of the manifest sub as a layer, idw names imx and then sub
 	cat.addImage("imx", "b1", []string{"sub"}, "-", "-", "imx", "", 0)
 	cat.addIndex("idw", [][2]string{{"imx", "image"}, {"sub", "image"}}, "-", "-", "idw")
+	// an image whose layer is named by nothing else, with a subject that can be stored beside it
+	cat.addImage("sub2", "b1", []string{"b2"}, "img", "image", "sub2", "", 0)
 	// large opaque manifests: pushing them takes long enough for concurrent pushes to overlap
 	for _, id := range []string{"big1", "big2", "big3"} {
 		cat.addOpaque(id, `{"id":"`+id+`","pad":"`+strings.Repeat("x", 3<<20)+`"}`, true)
